@@ -149,9 +149,10 @@ theorem seqLikeWith_PX {pe : Bool → B → List Int → R (B × List Int)} {pc 
     · rename_i hbin
       obtain ⟨v', _, h⟩ := (bind_ok _ _ _).1 h
       obtain ⟨bs, _, h⟩ := (bind_ok _ _ _).1 h
+      obtain ⟨vp, hvp, h⟩ := (bind_ok _ _ _).1 h
       cases h
       simp only [PX] at hp ⊢
-      refine ViewPX_push (value := bs) hp ?_
+      refine ViewPX_push (value := bs) hp ?_ (viewSeq_cases hvp)
       intro hty
       subst hty
       exact absurd hbin (by decide)
